@@ -364,6 +364,11 @@ def condition_features(prog, f):
                     t = body.term(x)
                     if t["k"] == "call" and is_callee(t, r"graph::Value::(is_null|into_boolean|as_boolean)$"):
                         calls.append(callee_fn(t)["def"].rsplit("::", 1)[-1])
+                        # what is tested is the *evaluated* condition value (strict: evaluate, lazy: evaluate_eager — a value that
+                        # is only built lazily is never null)
+                        recv = canon(tr.operand(t["args"][0]))
+                        if not (re.match(r"^&?\(Try::branch\((lazy::evaluate_eager|strict::evaluate)\(", recv) and ".value" in recv.split(", &*arg:exec")[0]):
+                            problems.append(("COND", "%s arm tests `%s`, not the evaluated condition value" % (g.variant, recv[:120])))
                     for st in body.blocks[x]["stmts"]:
                         if st["k"] == "assign" and st["rv"]["k"] == "unop" and st["rv"]["op"] == "Not":
                             neg = True
@@ -438,3 +443,65 @@ def iteration_features(prog, f, eval_name, add_name):
     else:
         problems.append(("IT5", "loop body does not run under locals nested in the enclosing block's"))
     return feats, problems
+
+
+# ---------------------------------------------------------------------------------------
+# nested execution contexts
+
+def context_inheritance(prog, rep, rule="E3.ctx"):
+    """a nested block (scan arm, if arm, for body, comprehension, shorthand body) runs in a context that is the enclosing one
+    except for what the construct itself defines: its own locals, a copy of the error context and — for scan arms only — the
+    regex captures of the arm that matched.  Everything else (graph, source, config, scoped store, function parameters, match,
+    full-match index, enclosing regex captures, inherited variables, shorthands, cancellation flag, lazy stores) is handed on."""
+    rep.rule(rule, "nested execution contexts inherit every field of the enclosing context except locals / error_context (and the regex captures inside scan arms), identically in both modes")
+    n = 0
+    per = {}
+    for f in sorted(prog.fns.values(), key=lambda x: x.id):
+        if f.body is None or f.file not in ("src/execution/strict.rs", "src/execution/lazy.rs"):
+            continue
+        tr = None
+        k = 0
+        for b in sorted(f.body.reachable()):
+            for st in f.body.blocks[b]["stmts"]:
+                if not (st["k"] == "assign" and st["rv"]["k"] == "aggregate" and (st["rv"].get("adt") or "").endswith("::ExecutionContext")):
+                    continue
+                tr = tr or Tracer(f.body)
+                d = dict(zip(st["rv"]["fields"], st["rv"]["ops"]))
+                vals = {fld: canon(tr.operand(op)) for fld, op in d.items()}
+                if not any("arg:exec" in v for v in vals.values()):
+                    continue            # a root context (stanza level): built from the driver's arguments
+                k += 1
+                n += 1
+                own = {}
+                for fld, v in vals.items():
+                    core = v
+                    while True:
+                        c2 = re.sub(r"^(cast\((.*)\)|&(.*)|\*(.*))$", lambda m: m.group(2) or m.group(3) or m.group(4), core)
+                        if c2 == core:
+                            break
+                        core = c2
+                    if core == "arg:exec." + fld:
+                        continue
+                    own[fld] = v
+                owner = (f.self_path or f.id).rsplit("::", 1)[-1]
+                mode = "lazy" if "/lazy" in f.file else "strict"
+                allowed = {"locals", "error_context"} | ({"current_regex_captures"} if owner == "Scan" else set())
+                bad = []
+                for fld, v in sorted(own.items()):
+                    if fld not in allowed:
+                        bad.append("%s = %s" % (fld, v[:80]))
+                    elif fld == "locals" and not re.search(r"VariableMap::nested\((cast\()?&\*\*arg:exec\.locals\)?\)" if owner != "AttributeShorthand" else r"VariableMap::new\(\)", v):
+                        bad.append("locals = %s" % v[:80])
+                    elif fld == "error_context" and not re.match(r"^Clone::clone\(&\*arg:exec\.error_context\)$", v):
+                        bad.append("error_context = %s" % v[:80])
+                    elif fld == "current_regex_captures" and not re.match(r"^&(Vec::new\(\)|.*regex.*|.*captures.*)", v, re.I):
+                        bad.append("current_regex_captures = %s" % v[:80])
+                per.setdefault(owner, {})[mode] = per.setdefault(owner, {}).get(mode, set()) | set(own)
+                rep.check(not bad, rule, "%s :: nested context #%d" % (f.id, k), sp_str(st["sp"]), "own fields: %s" % sorted(own),
+                          "the nested context does not hand on the enclosing one: %s" % "; ".join(bad))
+    for owner, m in sorted(per.items()):
+        if "strict" in m and "lazy" in m:
+            rep.check(m["strict"] == m["lazy"], rule, "%s :: strict = lazy" % owner, "", "both modes redefine %s" % sorted(m["strict"]),
+                      "strict redefines %s, lazy redefines %s" % (sorted(m["strict"]), sorted(m["lazy"])))
+    rep.floor(rule, n, 12, "nested execution contexts")
+    return n
